@@ -22,6 +22,7 @@ type rpeer struct {
 	routers []*network.Router
 	counts  []*int32
 	up      bool
+	zombies int // connections this peer may have abandoned at S while stopping
 }
 
 type rworld struct {
@@ -186,6 +187,8 @@ func (w *rworld) settle() bool {
 			continue
 		}
 		p := p
+		pe := pe
+		last, lastChange := -1, time.Now()
 		ok = waitUntil(func() bool {
 			w.mu.Lock()
 			want := 0
@@ -195,11 +198,18 @@ func (w *rworld) settle() bool {
 			armed := w.armed
 			w.mu.Unlock()
 			n := w.tabCount(p)
-			if armed >= 0 && n > 0 {
+			if armed >= 0 && n > want+pe.zombies {
 				// a handler is armed: the first loop to arrive will block and keep its entry
 				return false
 			}
-			return n <= want
+			if n != last {
+				last, lastChange = n, time.Now()
+			}
+			// a connection abandoned (not closed) by a stopping peer never goes away by itself
+			if pe.zombies == 0 {
+				return n <= want
+			}
+			return n <= want+pe.zombies && time.Since(lastChange) > 250*time.Millisecond
 		}, settleDeadline) && ok
 	}
 	return ok
@@ -339,6 +349,38 @@ func (w *rworld) exec(o opj) (int, bool, bool) {
 			}
 			pe.up = false
 		}
+		return 0, false, !w.settle()
+	case "crashsending":
+		pe := w.peers[o.P]
+		if !pe.up {
+			return 0, true, false
+		}
+		pr := pe.routers[len(pe.routers)-1]
+		g := w.sched.Block("router.closedSet", 1, func(args []interface{}) bool {
+			r, ok := args[0].(*network.Router)
+			return ok && r == pr
+		})
+		stopped := make(chan struct{})
+		go func() { pr.Stop(); close(stopped) }()
+		if !g.WaitHit(10 * time.Second) {
+			g.Release()
+			return 0, false, true
+		}
+		// the router is closed (flag set, connections closed); one of its goroutines still sends
+		sent := make(chan struct{})
+		go func() { pr.Send(w.S.ServerIdentity, &TMsg{ID: 0}); close(sent) }()
+		select {
+		case <-sent:
+		case <-time.After(10 * time.Second):
+		}
+		g.Release()
+		select {
+		case <-stopped:
+		case <-time.After(10 * time.Second):
+			return 0, false, true
+		}
+		pe.up = false
+		pe.zombies++
 		return 0, false, !w.settle()
 	case "restart":
 		pe := w.peers[o.P]
@@ -496,6 +538,9 @@ func runReal(in input) lib.Case {
 	}
 	if kinds["close"] {
 		cl += "-close"
+	}
+	if kinds["crashsending"] {
+		cl += "-closingsend"
 	}
 	if in.Label != "" {
 		cl += ":" + in.Label
